@@ -765,7 +765,52 @@ func (x *gen) longCapsOp() {
 			t = append(t, uint32(i%2))
 		}
 	}
-	x.emit("wlgen words=%s titles=%s L=%d sep=char:_ cap=%s tape=%s", encList(words), encList(wordTitles(words)), L, encCps(scheme), encWords(t))
+	stat := ""
+	if x.g.chance(25) {
+		stat = " stat=1"
+	}
+	x.emit("wlgen words=%s titles=%s L=%d sep=char:_ cap=%s tape=%s%s", encList(words), encList(wordTitles(words)), L, encCps(scheme), encWords(t), stat)
+}
+
+// lengthBlocks: Entropy() at lengths around every machine boundary (31/32/33, 63/64/65, 127/128,
+// 255/256/257, 1000+), for every capitalisation scheme over capitalisable / mixed / one-word lists,
+// and for character recipes with and without requirements. No generation, so cheap.
+var boundaryLengths = []int{1, 2, 3, 7, 8, 9, 15, 16, 17, 31, 32, 33, 52, 53, 54, 62, 63, 64, 65, 66, 100, 127, 128, 129, 255, 256, 257, 1000, 1023, 1024, 1025, 4096}
+
+func (x *gen) wlLengthBlock() {
+	lists := [][]string{{"a", "b", "c"}, {"a", "4", "c", "dd"}, {"solo"}, {"x", "y"}, {"7", "8"}}
+	seps := []string{"char:_", "preset:none", "preset:d1", "char:45"}
+	for _, L := range boundaryLengths {
+		for _, scheme := range schemes[:5] {
+			words := lists[x.g.intn(len(lists))]
+			if scheme == "random" && x.g.chance(60) {
+				words = lists[0]
+			}
+			sep := seps[x.g.intn(len(seps))]
+			if L > 300 && sep == "preset:d1" {
+				sep = "char:_"
+			}
+			x.emit("wlent words=%s titles=%s L=%d sep=%s cap=%s tape=%s", encList(words), encList(wordTitles(words)), L, sep, encCps(scheme), encWords([]uint32{1, 2, 3, 4}))
+		}
+	}
+}
+
+func (x *gen) charLengthBlock() {
+	for _, L := range boundaryLengths {
+		var r recipeSpec
+		r.L = L
+		switch x.g.intn(4) {
+		case 0:
+			r.allow = 15
+		case 1:
+			r.allow, r.require = 7, 4
+		case 2:
+			r.ac, r.rs = "abcdef", []string{"ab", "bc"}
+		default:
+			r.allow, r.exclude, r.require = 15, 16, 3
+		}
+		x.emit("charinfo r=%s", r.enc())
+	}
 }
 
 func (x *gen) wlnewOp(reps int) {
@@ -1446,7 +1491,11 @@ func generate(prop, tier string, seed uint64) []string {
 		rep(500, func() { x.wlgenOp("wlgen", "") })
 		rep(300, func() { x.wlgenOp("wlent", "") })
 		rep(15, func() { x.wlCellOps(600) })
+		x.wlLengthBlock()
+		x.charLengthBlock()
+		rep(30, x.longCapsOp)
 	case "C07":
+		x.charLengthBlock()
 		for i := 0; i < 3; i++ {
 			x.manySetsOp()
 		}
@@ -1454,6 +1503,7 @@ func generate(prop, tier string, seed uint64) []string {
 		rep(1200, func() { x.charinfoOp(x.recipe(3)) })
 		rep(400, func() { x.charinfoOp(x.recipe(0)) })
 	case "C08":
+		x.wlLengthBlock()
 		rep(500, func() { x.wlnewOp(8 * scale) })
 		rep(500, func() { x.wlgenOp("wlent", "") })
 	case "C09":
@@ -1496,6 +1546,10 @@ func generate(prop, tier string, seed uint64) []string {
 		}
 		x.emit("charinfo r=7/15/0/16/_/-/_")
 		x.namedFlagBlock()
+		for i := 0; i < 4; i++ {
+			x.emit("newcr L=%d", 1+x.g.intn(40))
+			x.emit("newwl L=%d", 1+x.g.intn(12))
+		}
 		rep(100, func() { x.wlgenOp("wlgen", "") })
 		// ordinary use of the library in the same process (custom exclusions next to the Ambiguous
 		// class, requirements, custom strings) …
@@ -1514,6 +1568,8 @@ func generate(prop, tier string, seed uint64) []string {
 			}
 		})
 		// … after which the built-ins must still be exactly as documented
+		x.emit("newcr L=%d", 1+x.g.intn(40))
+		x.emit("newwl L=%d", 1+x.g.intn(12))
 		x.presetCells()
 		for _, f := range []uint32{1, 2, 4, 8, 16, 0, 3, 15, 31} {
 			x.emit("charinfo r=1/%d/0/0/_/-/_", f)
